@@ -1,13 +1,4 @@
 package ledger
 
-import "pgregory.net/rapid"
-
-type CorruptOp struct{}
-type AtomPlan struct{}
-
-func drawC04(rt *rapid.T, p *Plan, tier string) *Plan { return p }
-func drawC06(rt *rapid.T, p *Plan, tier string) *Plan { return p }
-func (r *run) runC04()                               {}
-func (r *run) runC06()                               {}
-func (r *run) checkC11(n *Node, h uint32)            {}
-func (r *run) finalC11(n *Node)                      {}
+func (r *run) checkC11(n *Node, h uint32) {}
+func (r *run) finalC11(n *Node)           {}
